@@ -77,6 +77,8 @@ type State struct {
 	names   map[string]Value // source-level local names (from DebugRef)
 	cuts    map[string]bool
 	subMemo map[*Term]*Term
+	binds    map[string]int       // number of distinct values bound to a source-level name so far
+	lastBind map[string]ssa.Value
 	visits  map[*ssa.BasicBlock]int // symbolic forks per block on this path (loops without invariant)
 	weak    map[string]bool
 	inLoop  map[*ssa.BasicBlock]bool
@@ -102,6 +104,14 @@ func (s *State) fork() *State {
 	n.cuts = make(map[string]bool, len(s.cuts))
 	for k := range s.cuts {
 		n.cuts[k] = true
+	}
+	n.binds = make(map[string]int, len(s.binds))
+	for k, v := range s.binds {
+		n.binds[k] = v
+	}
+	n.lastBind = make(map[string]ssa.Value, len(s.lastBind))
+	for k, v := range s.lastBind {
+		n.lastBind[k] = v
 	}
 	n.visits = make(map[*ssa.BasicBlock]int, len(s.visits))
 	for k, v := range s.visits {
@@ -148,6 +158,34 @@ func (s *State) assume(t *Term) {
 			s.addSubst(a, b)
 		}
 	}
+	// residue equalities  toring(big form) == atom$...  : rewrite the big form to the opaque atom
+	if t.Op == "=" && len(t.Args) == 2 && modulusOf(t.Args[0].Sort) != nil && t.Args[1].IsConst() && t.Args[1].Val.Sign() == 0 && t.Args[0].Op == "poly" {
+		p := t.Args[0].P
+		if len(p.t) == 2 {
+			var av, tr *Term
+			okShape := true
+			for _, e := range p.t {
+				if len(e.m.f) != 1 || e.m.f[0].exp.Cmp(big1) != 0 {
+					okShape = false
+					break
+				}
+				a := e.m.f[0].atom
+				if a.Op == "var" && strings.HasPrefix(a.Name, "atom$") {
+					av = a
+				} else if a.Op == "app" && a.Name == "toring" {
+					tr = a
+				}
+			}
+			if okShape && av != nil && tr != nil {
+				m := modulusOf(t.Args[0].Sort)
+				ca := p.t[(&Mono{f: []monoFactor{{av, big1}}}).Key()].c
+				cb := p.t[(&Mono{f: []monoFactor{{tr, big1}}}).Key()].c
+				if new(big.Int).Mod(new(big.Int).Add(ca, cb), m).Sign() == 0 && (ca.Cmp(big1) == 0 || cb.Cmp(big1) == 0) {
+					s.addSubst(tr, av)
+				}
+			}
+		}
+	}
 	// x == c for an integer variable x: substitute
 	if t.Op == "=" && len(t.Args) == 2 && t.Args[0].Sort == SInt && t.Args[1].IsConst() && t.Args[1].Val.Sign() == 0 {
 		p := polyOf(t.Args[0])
@@ -178,6 +216,16 @@ func (s *State) assume(t *Term) {
 	}
 	s.hypKeys[k] = true
 	s.hyps = append(s.hyps, t)
+	// known conditions simplify later terms (ite conditions, guards)
+	switch t.Op {
+	case "=", "<=", "app", "var":
+		s.addSubst(t, tTrue)
+	case "not":
+		switch t.Args[0].Op {
+		case "=", "<=", "app", "var":
+			s.addSubst(t.Args[0], tFalse)
+		}
+	}
 }
 
 // sub applies the state's rewrite rules (memoised until the rule set changes).
@@ -1292,9 +1340,25 @@ func countPhis(b *ssa.BasicBlock) int {
 func (e *Engine) execInstr(st *State, fr *Frame, in ssa.Instruction) {
 	switch in := in.(type) {
 	case *ssa.DebugRef:
+		if id, ok := in.Expr.(interface{ String() string }); ok && in.IsAddr && fr.topLevel {
+			// address-taken local: the name denotes the variable's storage
+			if v, ok2 := fr.vals[in.X]; ok2 {
+				if _, isPtr := v.(*PtrVal); isPtr {
+					if _, exists := st.names[id.String()]; !exists || st.weak[id.String()] {
+						st.names[id.String()] = v
+						st.weak[id.String()] = true // storage binding: does not make a cut ready
+					}
+				}
+			}
+		}
 		if id, ok := in.Expr.(interface{ String() string }); ok && !in.IsAddr {
 			if v, ok2 := fr.vals[in.X]; ok2 && fr.topLevel {
 				st.names[id.String()] = v
+				delete(st.weak, id.String())
+				if st.lastBind[id.String()] != in.X {
+					st.lastBind[id.String()] = in.X
+					st.binds[id.String()]++
+				}
 				e.checkCuts(st, fr)
 			} else if c, ok3 := in.X.(*ssa.Const); ok3 && fr.topLevel {
 				// `var x T` declarations bind the zero constant: a weak binding that does not make a cut ready
@@ -1702,6 +1766,6 @@ func (e *Engine) unsatisfiable(hyps []*Term) bool {
 	e.varN++
 	hs := append(append([]*Term{}, hyps...), bitUFFacts(hyps)...)
 	q := &Query{Name: fmt.Sprintf("feas_%s_%d", e.curFunc, e.varN), Hyps: hs, Goal: tFalse}
-	r := solve(q, 5)
+	r := solve(q, 2)
 	return r.Status == "unsat"
 }
